@@ -79,3 +79,186 @@ Proof.
       * intros [[Hc _]|[_ Hqe]]; [congruence|]. exists p. auto.
     + tauto.
 Qed.
+
+(* DeadlineInv does not look at the deadline's own expiration queue nor at partitions_posted *)
+Lemma dinv_core_eq qs tbl d d' :
+  DeadlineInv qs tbl d -> parts d' = parts d -> early_terms d' = early_terms d ->
+  dl_live_sectors d' = dl_live_sectors d -> dl_total_sectors d' = dl_total_sectors d ->
+  dl_faulty_power d' = dl_faulty_power d -> dl_live_power d' = dl_live_power d ->
+  dl_daily_fee d' = dl_daily_fee d -> DeadlineInv qs tbl d'.
+Proof.
+  intros [] E1 E2 E3 E4 E5 E6 E7. constructor; rewrite ?E1, ?E2, ?E3, ?E4, ?E5, ?E6, ?E7; assumption.
+Qed.
+
+Lemma add_exp_partitions_inv qs tbl d e idxs d' :
+  DeadlineInv qs tbl d -> add_exp_partitions qs d e idxs = Ok d' -> DeadlineInv qs tbl d'.
+Proof.
+  intros HD. unfold add_exp_partitions. destruct idxs; [intros [= <-]; exact HD|].
+  destruct (bfq_add _ _ _ _); cbn [rbind]; [|discriminate]. intros [= <-].
+  eapply dinv_core_eq; [exact HD|..]; reflexivity.
+Qed.
+
+(* ---------- record_faults ---------- *)
+Lemma d_record_faults_inv qs tbl d fe psm d' delta :
+  DeadlineInv qs tbl d -> d_record_faults qs tbl d fe psm = Ok (d', delta) -> DeadlineInv qs tbl d'.
+Proof.
+  intros HD. unfold d_record_faults.
+  destruct (foldM _ psm (d, pp0, [])) as [[[d1 dl1] wf]|] eqn:Ef; cbn [rbind]; [|discriminate].
+  assert (H1 : DeadlineInv qs tbl d1).
+  { match type of Ef with foldM ?f _ _ = _ =>
+      pose proof (foldM_ind f (fun _ (acc : deadline * pp * list N) => DeadlineInv qs tbl (fst (fst acc))))
+        as Hind end.
+    specialize (Hind) with (3 := Ef). cbn [fst] in Hind. apply Hind; [|exact HD].
+    intros [[dc dlt] wfc] [i nums] rest [[dc' dlt'] wfc'] HI Hstep. cbn [fst] in *.
+    destruct (get_part (parts dc) i) as [p|] eqn:Hp; [|discriminate].
+    destruct (p_record_faults qs tbl p (lset nums) fe) as [[[[p' nf] pd] nfp]|] eqn:Eop;
+      cbn [rbind] in Hstep; [|discriminate].
+    injection Hstep as <- _ _.
+    pose proof (di_parts _ _ _ HI _ _ Hp) as HPp.
+    destruct (p_record_faults_inv qs tbl p (lset nums) fe p' nf pd nfp HPp Eop)
+      as (HP' & S' & T' & F' & U' & Enf & HnfS & -> & _).
+    pose proof (p_record_faults_et _ _ _ _ _ _ _ _ _ Eop) as ET'.
+    assert (Elive : live_sectors p' = live_sectors p) by (unfold live_sectors; rewrite S', T'; reflexivity).
+    destruct (pinv_memos _ _ _ HPp) as [LPp FPp]. destruct (pinv_memos _ _ _ HP') as [LPp' FPp'].
+    eapply dinv_replace; [exact HI|exact Hp|exact HP'|exact S'| | | | |].
+    - rewrite Elive. lia.
+    - rewrite FPp', FPp, F'. rewrite (spow_add_eq tbl (faults p ∪ nf) (faults p) nf);
+        [apply pp_eq; cbn; lia|reflexivity|rewrite Enf; clear; set_solver].
+    - rewrite LPp', LPp, Elive. apply pp_eq; cbn; lia.
+    - rewrite Elive. lia.
+    - intros j. rewrite ET'. pose proof (di_early _ _ _ HI j) as HE.
+      destruct (decide (j = i)) as [->|Hne]; [|tauto].
+      rewrite HE. split.
+      + intros (q & Hq & Hqe). right. split; [reflexivity|]. unfold get_part in Hp. congruence.
+      + intros [[Hc _]|[_ Hqe]]; [congruence|]. exists p. auto. }
+  destruct (add_exp_partitions qs d1 fe wf) as [d2|] eqn:Ea; cbn [rbind]; [|discriminate].
+  intros [= <- _]. eapply add_exp_partitions_inv; eauto.
+Qed.
+
+(* ---------- terminate_sectors ---------- *)
+Lemma p_terminate_sectors_len qs tbl p epoch nums p' removed unp :
+  PartInv qs tbl p -> p_terminate_sectors qs tbl p epoch nums = Ok (p', removed, unp) ->
+  es_len removed = ssize nums /\ (es_is_empty removed = true <-> nums = ∅).
+Proof.
+  intros HP Hop.
+  destruct (p_terminate_sectors_inv qs tbl p epoch nums p' removed unp HP Hop)
+    as (_ & _ & _ & _ & _ & _ & Eall & _).
+  assert (Hd : on_time removed ## early removed).
+  { unfold p_terminate_sectors in Hop.
+    destruct (subset nums (live_sectors p)); cbn [negb] in Hop; [|discriminate].
+    destruct (load_sectors tbl nums) as [infos|] eqn:El; cbn [rbind] in Hop; [|discriminate].
+    destruct (load_from_live _ _ _ _ _ HP El) as (Hft & Hnd & Hn).
+    destruct (remove_sectors qs (expirations p) infos (faults p) (recoveries p))
+      as [[[q rm] rrec]|] eqn:Er; cbn [rbind] in Hop; [|discriminate].
+    destruct (remove_sectors_inv qs tbl (faults p) (recoveries p) (live_sectors p) infos Hft Hnd
+                (pi_rec_faults _ _ _ HP) nums (nums ∖ faults p) (nums ∩ faults p)
+                (eq_sym Hn) eq_refl eq_refl (expirations p) q rm rrec (pi_queue _ _ _ HP) Er)
+      as (_ & _ & _ & Edisj & _).
+    destruct (record_early_termination _ _ _); cbn [rbind] in Hop; [|discriminate].
+    destruct (select_sectors _ _); cbn [rbind] in Hop; [|discriminate].
+    destruct (validated _); cbn [rbind] in Hop; [|discriminate].
+    injection Hop as _ <- _. cbn. exact Edisj. }
+  unfold es_all in Eall. split.
+  - unfold es_len. rewrite <- ssize_union_disj by exact Hd. rewrite Eall. reflexivity.
+  - rewrite es_is_empty_true. unfold es_all. rewrite Eall. reflexivity.
+Qed.
+
+Lemma d_terminate_sectors_inv qs tbl d epoch psm d' lost :
+  DeadlineInv qs tbl d -> d_terminate_sectors qs tbl d epoch psm = Ok (d', lost) ->
+  DeadlineInv qs tbl d'.
+Proof.
+  intros HD. unfold d_terminate_sectors. intros Ef.
+  match type of Ef with foldM ?f _ _ = _ =>
+    pose proof (foldM_ind f (fun _ (acc : deadline * pp) => DeadlineInv qs tbl (fst acc))) as Hind end.
+  specialize (Hind) with (3 := Ef). cbn [fst] in Hind. apply Hind; [|exact HD].
+  intros [dc lc] [i nums] rest [dc' lc'] HI Hstep. cbn [fst] in *.
+  destruct (get_part (parts dc) i) as [p|] eqn:Hp; [|discriminate].
+  destruct (p_terminate_sectors qs tbl p epoch (lset nums)) as [[[p' rm] unp]|] eqn:Eop;
+    cbn [rbind] in Hstep; [|discriminate].
+  injection Hstep as <- _.
+  pose proof (di_parts _ _ _ HI _ _ Hp) as HPp.
+  destruct (p_terminate_sectors_inv qs tbl p epoch (lset nums) p' rm unp HPp Eop)
+    as (HP' & HL & S' & T' & F' & U' & Eall & Eact & Eflt & Eunp & Efee).
+  destruct (p_terminate_sectors_len qs tbl p epoch (lset nums) p' rm unp HPp Eop) as [Elen Eemp].
+  pose proof (p_terminate_sectors_et _ _ _ _ _ _ _ _ Eop) as ET'.
+  fold (es_all rm) in ET'. rewrite Eall in ET'.
+  remember (lset nums) as X eqn:EX. clear EX.
+  assert (Elive : live_sectors p' = live_sectors p ∖ X).
+  { unfold live_sectors. rewrite S', T'. apply seteq_L. clear. set_solver. }
+  destruct (pinv_memos _ _ _ HPp) as [LPp FPp]. destruct (pinv_memos _ _ _ HP') as [LPp' FPp'].
+  destruct (partinv_sub _ _ _ HPp) as (SF & SU & SR).
+  pose proof (pi_unproven_faults _ _ _ HPp) as DUF.
+  eapply dinv_replace; [exact HI|exact Hp|exact HP'|exact S'| | | | |].
+  - rewrite Elive, (ssize_diff _ _ HL).
+    destruct (es_is_empty rm) eqn:Ee.
+    + assert (HX0 : X = ∅) by (apply Eemp; reflexivity). rewrite HX0. unfold ssize. rewrite size_empty. lia.
+    + rewrite Elen. lia.
+  - rewrite FPp', FPp, F', Eflt.
+    rewrite (spow_add_eq tbl (faults p) (faults p ∖ X) (X ∩ faults p)).
+    + apply pp_eq; cbn; lia.
+    + clear. intros n. destruct (decide (n ∈ X)); set_solver.
+    + clear. set_solver.
+  - rewrite LPp', LPp, Elive, Eact, Eflt, Eunp. rewrite (spow_diff_sub tbl _ X HL).
+    assert (E : spow tbl X = pp_add (pp_add (spow tbl ((X ∖ faults p) ∖ unproven p)) (spow tbl (X ∩ faults p)))
+                                    (spow tbl (X ∩ unproven p))).
+    { rewrite (spow_add_eq tbl X (X ∖ faults p) (X ∩ faults p)).
+      - rewrite (spow_add_eq tbl (X ∖ faults p) ((X ∖ faults p) ∖ unproven p) (X ∩ unproven p)).
+        + apply pp_eq; cbn; lia.
+        + clear -DUF. intros n. destruct (decide (n ∈ unproven p)); set_solver.
+        + clear. set_solver.
+      - clear. intros n. destruct (decide (n ∈ faults p)); set_solver.
+      - clear. set_solver. }
+    rewrite E. apply pp_eq; cbn; lia.
+  - rewrite Elive, Efee. unfold sfee. rewrite (ssum_diff _ _ _ HL). lia.
+  - intros j. pose proof (di_early _ _ _ HI j) as HE.
+    destruct (decide (j = i)) as [->|Hne].
+    + destruct (es_is_empty rm) eqn:Ee.
+      * assert (Ee' : X = ∅) by (apply Eemp; reflexivity). rewrite HE, ET'. split.
+        -- intros (q & Hq & Hqe). right. split; [reflexivity|]. left. unfold get_part in Hp. congruence.
+        -- intros [[Hc _]|[_ [Hqe|Hqe]]]; [congruence|exists p; auto|contradiction].
+      * assert (X <> ∅) by (intros E; apply Eemp in E; discriminate).
+        rewrite elem_of_union, elem_of_singleton, ET'. split; [intros _|auto]. right. auto.
+    + destruct (es_is_empty rm); [tauto|]. rewrite elem_of_union, elem_of_singleton. tauto.
+Qed.
+
+(* ---------- process_deadline_end ---------- *)
+Lemma d_process_deadline_end_inv qs tbl d fe d' delta pen :
+  DeadlineInv qs tbl d -> d_process_deadline_end qs d fe = Ok (d', delta, pen) ->
+  DeadlineInv qs tbl d'.
+Proof.
+  intros HD. unfold d_process_deadline_end.
+  destruct (foldM _ _ (d, pp0, pp0, [])) as [[[[d1 dl1] pn1] rs]|] eqn:Ef; cbn [rbind]; [|discriminate].
+  assert (H1 : DeadlineInv qs tbl d1).
+  { match type of Ef with foldM ?f _ _ = _ =>
+      pose proof (foldM_ind f (fun _ (acc : deadline * pp * pp * list N) =>
+                               DeadlineInv qs tbl (fst (fst (fst acc))))) as Hind end.
+    specialize (Hind) with (3 := Ef). cbn [fst] in Hind. apply Hind; [|exact HD].
+    intros [[[dc dlt] pnc] rsc] i rest [[[dc' dlt'] pnc'] rsc'] HI Hstep. cbn [fst] in *.
+    destruct (bool_decide (i ∈ posted dc)); [injection Hstep as <- _ _ _; exact HI|].
+    destruct (get_part (parts dc) i) as [p|] eqn:Hp; [|discriminate].
+    destruct (pp_is_zero (recovering_power p) && pp_eqb (p_faulty_power p) (live_power p));
+      [injection Hstep as <- _ _ _; exact HI|].
+    destruct (p_record_missed_post qs p fe) as [[[[p' pd] ppen] nfp]|] eqn:Eop;
+      cbn [rbind] in Hstep; [|discriminate].
+    injection Hstep as <- _ _ _.
+    pose proof (di_parts _ _ _ HI _ _ Hp) as HPp.
+    destruct (p_record_missed_post_inv qs tbl p fe p' pd ppen nfp HPp Eop)
+      as (HP' & S' & T' & F' & U' & -> & _).
+    pose proof (p_record_missed_post_et _ _ _ _ _ _ _ Eop) as ET'.
+    assert (Elive : live_sectors p' = live_sectors p) by (unfold live_sectors; rewrite S', T'; reflexivity).
+    destruct (pinv_memos _ _ _ HPp) as [LPp FPp]. destruct (pinv_memos _ _ _ HP') as [LPp' FPp'].
+    destruct (partinv_sub _ _ _ HPp) as (SF & SU & SR).
+    eapply dinv_replace; [exact HI|exact Hp|exact HP'|exact S'| | | | |].
+    - rewrite Elive. lia.
+    - rewrite FPp', FPp, F'. rewrite (spow_diff_sub tbl _ _ SF). apply pp_eq; cbn; lia.
+    - rewrite LPp', LPp, Elive. apply pp_eq; cbn; lia.
+    - rewrite Elive. lia.
+    - intros j. rewrite ET'. pose proof (di_early _ _ _ HI j) as HE.
+      destruct (decide (j = i)) as [->|Hne]; [|tauto].
+      rewrite HE. split.
+      + intros (q & Hq & Hqe). right. split; [reflexivity|]. unfold get_part in Hp. congruence.
+      + intros [[Hc _]|[_ Hqe]]; [congruence|]. exists p. auto. }
+  destruct (add_exp_partitions qs d1 fe rs) as [d2|] eqn:Ea; cbn [rbind]; [|discriminate].
+  intros [= <- _ _]. pose proof (add_exp_partitions_inv _ _ _ _ _ _ H1 Ea) as H2.
+  eapply dinv_core_eq; [exact H2|..]; reflexivity.
+Qed.
